@@ -22,7 +22,14 @@ def run(ctx):
     ctx.oracle("o_implicit_vs_explicit", k_implicit.oracle_implicit)
 
     def search(c):
-        return k_implicit.oracle_implicit(c, ncases=c.n(150, 600))["failures"]
+        # implicit-vs-explicit first; then the projector and Green's-function oracles (the ties k_projector / k_greens
+        # are part of this check, so a break there should come with a failing input too)
+        f = [x for x in k_implicit.oracle_implicit(c, ncases=c.n(150, 600))["failures"] if classify(x) is None]
+        if not f:
+            f = o_linalg.oracle_projector(c)["failures"]
+        if not f:
+            f = k_greens.oracle_greens(c)["failures"]
+        return f
     search.__name__ = "o_implicit_search"
     ctx.searcher(search)
     return ctx.finish(classify)
@@ -35,4 +42,8 @@ def replay(rp):
     if inp is None:
         print("nothing replayable:", rp.get("no_longer_checks"))
         return 2
+    if inp.get("oracle") == "projector":
+        return o_linalg.replay_projector(inp)
+    if inp.get("oracle") in ("greens", "kpm", "direct_options", "kpm_rescale", "kpm_sylvester"):
+        return k_greens.replay(inp)
     return k_implicit.replay(inp)
